@@ -336,12 +336,35 @@ class Engine:
             self.unsupported.append("solver disagreement on %s: z3 %s, cvc5 %s" % (oblig, "sat" if z3_says_sat else "unsat", ans))
 
     def fail(self, oblig, msg=""):
+        _model_bug_guard()
         return self.check(False, oblig, msg)
 
     def stats(self):
         return {"paths": self.paths, "aborted": self.aborted, "forks": self.forks, "pruned": self.pruned,
                 "queries": self.queries, "solver_s": round(self.solver_s, 3), "checks": self.checks,
                 "checks_by_obligation": dict(self.checks_by_oblig), "cross_check_cvc5": dict(self.xcheck)}
+
+
+_VERIF_ROOT = __import__("os").path.dirname(__import__("os").path.dirname(__import__("os").path.abspath(__file__)))
+_BUG_TYPES = (AttributeError, NameError, UnboundLocalError, AssertionError, ImportError, RecursionError, NotImplementedError)
+
+
+def _model_bug_guard():
+    """Engine.fail is usually called from an `except Exception` block of a harness.  If the exception being handled
+    was raised by the model's own code (innermost frame in /verif) and is of a kind the model never raises on purpose,
+    it is a defect of the machinery, not behaviour of the code under test: Unsupported (inconclusive), not a failure."""
+    import sys
+    ex = sys.exc_info()[1]
+    if ex is None or not isinstance(ex, _BUG_TYPES):
+        return
+    tb_ = ex.__traceback__
+    last = None
+    while tb_ is not None:
+        last = tb_
+        tb_ = tb_.tb_next
+    fn = last.tb_frame.f_code.co_filename if last is not None else ""
+    if fn.startswith(_VERIF_ROOT + "/symx") or fn.startswith(_VERIF_ROOT + "/harness") or fn.startswith(_VERIF_ROOT + "/refconc"):
+        raise Unsupported("error inside the model (%s:%d): %s: %s" % (fn[len(_VERIF_ROOT) + 1:], last.tb_lineno, type(ex).__name__, ex))
 
 
 def _plain(x):
